@@ -24,11 +24,12 @@ Fixpoint linearize (e : bexpr) : option lin :=
                     if Z.eqb a1 0 then Some (c1 * a2, c1 * c2)
                     else if Z.eqb a2 0 then Some (a1 * c2, c1 * c2) else None
                 | _, _ => None end
+  | BDiv _ _ => None                       (* quotients are outside the linear fragment *)
   end.
 
 Lemma linearize_sound : forall e a c, linearize e = Some (a, c) -> forall S, eval_b 2 S e = a * S + c.
 Proof.
-  induction e as [| |z|e1 IH1 e2 IH2|e1 IH1 e2 IH2|e1 IH1 e2 IH2|e1 IH1]; intros a c H S; cbn [linearize eval_b] in *.
+  induction e as [| |z|e1 IH1 e2 IH2|e1 IH1 e2 IH2|e1 IH1 e2 IH2|e1 IH1|e1 IH1 e2 IH2]; intros a c H S; cbn [linearize eval_b] in *.
   - inversion H; lia.
   - inversion H; lia.
   - inversion H; lia.
@@ -42,6 +43,7 @@ Proof.
     + apply Z.eqb_eq in E1. inversion H; subst. lia.
     + destruct (Z.eqb a2 0) eqn:E2; [|discriminate]. apply Z.eqb_eq in E2. inversion H; subst. lia.
   - destruct (linearize e1) as [[a1 c1]|]; [|discriminate]. inversion H; subst. rewrite (IH1 a1 c1 eq_refl S). lia.
+  - discriminate.
 Qed.
 
 Definition lin_nonneg (l : lin) : bool := (0 <=? fst l) && (0 <=? 2 * fst l + snd l).
@@ -82,13 +84,14 @@ Qed.
 (* ------------------------------------------------------------------ syntactic equality *)
 Lemma bexpr_eqb_eq : forall a b, bexpr_eqb a b = true -> a = b.
 Proof.
-  induction a as [| |z|a1 IH1 a2 IH2|a1 IH1 a2 IH2|a1 IH1 a2 IH2|a1 IH1]; intros b H; destruct b; cbn in H;
+  induction a as [| |z|a1 IH1 a2 IH2|a1 IH1 a2 IH2|a1 IH1 a2 IH2|a1 IH1|a1 IH1 a2 IH2]; intros b H; destruct b; cbn in H;
     try discriminate; try reflexivity.
   - apply Z.eqb_eq in H; subst; reflexivity.
   - apply andb_true_iff in H; destruct H as [H1 H2]. rewrite (IH1 _ H1), (IH2 _ H2); reflexivity.
   - apply andb_true_iff in H; destruct H as [H1 H2]. rewrite (IH1 _ H1), (IH2 _ H2); reflexivity.
   - apply andb_true_iff in H; destruct H as [H1 H2]. rewrite (IH1 _ H1), (IH2 _ H2); reflexivity.
   - rewrite (IH1 _ H); reflexivity.
+  - apply andb_true_iff in H; destruct H as [H1 H2]. rewrite (IH1 _ H1), (IH2 _ H2); reflexivity.
 Qed.
 
 Lemma bounds4_eqb_eq : forall a b, bounds4_eqb a b = true -> a = b.
@@ -176,6 +179,6 @@ Qed.
 Lemma eval_subst_b : forall lib en e stop S, eval_g lib en stop = S ->
   eval_g lib en (subst_b e stop) = eval_b 2 S e.
 Proof.
-  intros lib en e stop S HS; induction e as [| |z|a IHa b IHb|a IHa b IHb|a IHa b IHb|a IHa];
+  intros lib en e stop S HS; induction e as [| |z|a IHa b IHb|a IHa b IHb|a IHa b IHb|a IHa|a IHa b IHb];
     cbn [subst_b eval_g eval_b]; try congruence; reflexivity.
 Qed.
